@@ -48,7 +48,7 @@ fn table_or_panic<K: Kmer>(sink: &Sink, inp: &GInput) -> Option<Vec<Row>> {
 }
 
 pub fn run_input<K: Kmer + Send + Sync + serde::Serialize + serde::de::DeserializeOwned>(sink: &Sink, r: &mut Rng, inp: &GInput, w: &Which) {
-    if w.lifecycle {
+    if w.lifecycle && (inp.fam != "exhaustive" || w.thorough || r.chance(1, 3)) {
         lifecycle::<K>(sink, r, inp);
     }
     if w.pipeline && inp.mode == Mode::Sum {
